@@ -4,6 +4,11 @@
 
 Part 1: synthetic functions (twin fidelity, site inventory, chained comparisons, truthiness, helper functions,
         exceptions, exploration incl. equality guards and floor/ceil windows, determinism).
+Part 1b: nested arguments (lists / tuples of Fractions of different shapes), per-execution targets of a site that runs
+        several times in one call, classes and methods (recursive construction stays inside the twin class), `adjust`
+        (keep min <= max) and group moves (translate all x coordinates together).
+Part 3: the real geometry code: clip_segment / clip_code, points_in_tolerance / supersample, rtree.Index,
+        spatial_grid.Index, vb_scale - every numeric site reaches lhs == rhs exactly or is listed in GEO_REASONS.
 Part 2: the real ebb_calc.calculate_lm, ebb_calc.max_rate_t3 and plot_utils.checkLimitsTol from PLOTINK_REPO: every
         integer comparison site reachable from valid inputs gets an equality hit, or is listed in REASONS with the
         reason why lhs == rhs cannot occur there (checked: a listed site must indeed stay without an equality hit -
@@ -103,6 +108,59 @@ def f_window(a, x):
     if r == 100 + band % 2 * 5:
         return 1
     return 2
+
+
+def f_poly(points, tol):
+    """nested arguments: a list of (x, y) tuples and a scalar; a helper is called once per point"""
+    if tol <= 0:
+        return -1
+    n = 0
+    for p in points:
+        if inside_band(p[0], p[1], tol):
+            n += 1
+    return n
+
+
+def inside_band(x, y, tol):
+    if x < -tol:
+        return False
+    if x > tol:
+        return False
+    return y * y <= tol * tol
+
+
+class Tree:
+    """a class that builds itself recursively through its own name (the shape of rtree.Index)"""
+    limit = 3
+
+    def __init__(self, items):
+        self.items, self.kids = [], []
+        if len(items) <= 1:
+            self.items = list(items)
+            return
+        mean = sum(items) / len(items)
+        lo = [v for v in items if v < mean]
+        hi = [v for v in items if not v < mean]
+        if not lo or not hi:
+            self.items = list(items)
+        else:
+            self.kids = [Tree(lo), Tree(hi)]
+
+    def count_above(self, x):
+        n = 0
+        for v in self.items:
+            if v > x:
+                n += 1
+        for k in self.kids:
+            n += k.count_above(x)
+        return n
+
+
+def f_shift(box, q):
+    """a new early return on one coordinate of the query hides the rest: the failing inputs have q[0] == 37 AND overlap"""
+    if q[0] == 37:
+        return 'magic'
+    return not (q[0] > box[1] or q[1] < box[0])
 
 
 def same(tw, *args):
@@ -271,6 +329,88 @@ def test_explore():
     print('explore: ok')
 
 
+def test_nested_and_classes():
+    from fractions import Fraction as Fr
+    rng = random.Random(5)
+    # ---- nested arguments, Fractions, per-execution targets --------------------------------------
+    tw = sc.instrument(f_poly)
+    assert tw.functions == ['f_poly', 'inside_band']
+    assert [s.text for s in tw.sites] == ['tol <= 0', 'inside_band(p[0], p[1], tol)', 'x < -tol', 'x > tol', 'y * y <= tol * tol']
+    flat = sc.flatten(([(1, 2), [3, (4,)]], 5))
+    assert flat[1:] == (1, 2, 3, 4, 5) and flat[0].paths == [(0, 0, 0), (0, 0, 1), (0, 1, 0), (0, 1, 1, 0), (1,)]
+    assert sc.build(flat) == ([(1, 2), [3, (4,)]], 5) and sc.build(flat)[0] is not sc.build(flat)[0]
+    seeds = []
+    for _ in range(30):
+        n = rng.randint(1, 4)       # different shapes in one run
+        seeds.append(([(Fr(rng.randint(-9000, 9000), 1009), Fr(rng.randint(-9000, 9000), 1009)) for _ in range(n)],
+                      Fr(rng.randint(1, 5000), 1009)))
+    for s_ in seeds:
+        same(tw, *s_)
+    dom = lambda a: a[1] >= 0        # noqa: E731
+    inputs, rep = sc.explore(tw, seeds, sc.Moves(domain=dom, lo={(1,): 0}), 2500, rng)
+    for text in ('tol <= 0', 'x < -tol', 'x > tol', 'y * y <= tol * tol'):
+        r = rep_of(rep, text)
+        assert r['hit_equal'] and r['hit_true'] and r['hit_false'], (text, r)
+    assert all(type(c) is Fr for pts, t in inputs for p in pts for c in p) and all(type(t) is Fr and t >= 0 for _, t in inputs)
+    assert all(isinstance(pts, list) and all(isinstance(p, tuple) for p in pts) for pts, _ in inputs)     # shapes are kept
+    # equality was reached for the FIRST and for the SECOND execution of the site separately (the k-th execution is
+    # the k-th point that gets as far as this comparison), not only for whichever comes first
+    assert rep_of(rep, 'x > tol')['equal_by_occurrence'][:2] == [True, True]
+    assert any(p[0] == t for pts, t in inputs for p in pts)
+    assert any(len(pts) >= 2 and any(p[0] == t for p in pts[1:]) and pts[0][0] != t for pts, t in inputs)
+    assert any(p[1] * p[1] == t * t for pts, t in inputs for p in pts)                # quadratic relation, exact rationals
+    assert max(c.denominator.bit_length() for pts, t in inputs for p in pts for c in p) <= 130    # readable rationals
+    # tolerance 0 is inside the domain and is proposed; a negative one never is
+    assert any(t == 0 for _, t in inputs)
+
+    # ---- classes and methods -------------------------------------------------------------------------
+    tw = sc.instrument(Tree)
+    assert tw.functions == ['Tree.__init__', 'Tree.count_above'] and tw.cls is not Tree and tw.cls.__name__ == 'Tree'
+    assert tw.cls.limit == 3
+    texts = [s.text for s in tw.sites]
+    assert texts == ['len(items) <= 1', 'v < mean', 'v < mean', 'lo', 'hi', 'v > x'], texts
+    assert [s.func for s in tw.sites][-1] == 'Tree.count_above'
+    t1 = tw.cls([5, 1, 9, 3, 7])
+    assert type(t1.kids[0]) is tw.cls                         # recursion through the class name stays inside the twin
+    for items, x in (([5, 1, 9, 3, 7], 4), ([2, 2, 2], 2), ([], 0), ([1], 1)):
+        assert tw.cls(items).count_above(x) == Tree(items).count_above(x)
+    twm = sc.instrument(Tree.count_above)                     # a method: the whole class is instrumented
+    assert twm.cls is not None and twm(twm.cls([1, 5]), 2) == 1 and twm.trace
+    ap = lambda tw_, a: tw_.cls(list(a[0])).count_above(a[1])      # noqa: E731
+    seeds = [([rng.randint(-10 ** 6, 10 ** 6) for _ in range(rng.randint(2, 6))], rng.randint(-10 ** 6, 10 ** 6)) for _ in range(25)]
+    inputs, rep = sc.explore(tw, seeds, None, 2500, rng, apply=ap)
+    for text in ('v > x', 'len(items) <= 1'):
+        r = [v for v in rep.values() if v['text'] == text][0]
+        assert r['hit_true'] and r['hit_false'], (text, r)
+    assert rep_of(rep, 'v > x')['hit_equal'] and any(x in items for items, x in inputs)
+    r = [v for k, v in rep.items() if v['text'] == 'v < mean'][0]
+    assert r['hit_equal'], r                                  # an item exactly on the mean (float mean, int items)
+    # ---- adjust (keep min <= max by dragging the partner) and group moves (translate all x together) ----
+    tw = sc.instrument(f_shift)
+    seeds = []
+    for _ in range(30):
+        a, b = sorted([rng.randint(-20, 20), rng.randint(-20, 20)])
+        c, d = sorted([rng.randint(-20, 20), rng.randint(-20, 20)])
+        seeds.append(((a, b), (c, d)))
+    ok = lambda a: a[0][0] <= a[0][1] and a[1][0] <= a[1][1]      # noqa: E731
+
+    def drag(args, path):
+        box, q = [list(args[0]), list(args[1])]
+        for v in (box, q):
+            if v[0] > v[1]:
+                v[1 - path[1]] = v[path[1]]
+        return (tuple(box), tuple(q))
+    overlap = lambda a: a[0][0] <= a[1][1] and a[1][0] <= a[0][1]     # noqa: E731
+    ins1, rep1 = sc.explore(tw, seeds, sc.Moves(domain=ok), 600, random.Random(1))
+    assert not rep_of(rep1, 'q[0] == 37')['hit_equal']           # 37 lies beyond every q[1]: the domain rejects the move
+    ins2, rep2 = sc.explore(tw, seeds, sc.Moves(domain=ok, adjust=drag), 600, random.Random(1))
+    assert rep_of(rep2, 'q[0] == 37')['hit_equal'] and all(ok(a) for a in ins2)
+    assert not any(a[1][0] == 37 and overlap(a) for a in ins2)   # ... reached, but the figure was torn apart
+    ins3, rep3 = sc.explore(tw, seeds, sc.Moves(domain=ok, adjust=drag, groups=lambda path, v: 'x'), 600, random.Random(1), keep=6)
+    assert any(a[1][0] == 37 and overlap(a) for a in ins3), ins3  # translated as a whole: still overlapping
+    print('nested arguments, classes: ok')
+
+
 # ------------------------------------------------------------------------------------------------
 # the real functions
 # ------------------------------------------------------------------------------------------------
@@ -389,9 +529,134 @@ def test_real():
     print('real functions: ok')
 
 
+# reachable numeric sites of the geometry code at which lhs == rhs cannot occur: why (checked: never hit)
+GEO_REASONS = {
+    'clip_segment': {'code & 8': 'reached only when the bits 1, 2 and 4 of a non-zero outcode are clear, i.e. code == 8'},
+    'points_in_tolerance': {'seg_length_squared == 0': 'reached only when seg_length_squared > temp1 > 0'},
+    'supersample': {'seg_length_squared == 0': 'reached only when seg_length_squared > temp1 > 0',
+                    'len(vertices) <= 2': 'the domain of the stream has at least 3 vertices (len - 2 >= 1)'},
+    'vb_scale': {'len(par_array) > 0': 'the stream always passes a non-empty preserveAspectRatio',
+                 'len(vb_array) < 4': 'n/a'},
+}
+
+
+def check_geo(name, rep, reasons):
+    for sid, r in rep.items():
+        if r['reached'] and r['numeric'] and not r['hit_equal']:
+            assert r['text'] in reasons, f'{name}: {sid} `{r["text"]}` never reached lhs == rhs (closest {r["best_abs_diff"]})'
+
+
+def test_real_geometry():
+    from fractions import Fraction as Fr
+    from plotink import plot_utils as pu, rtree, spatial_grid as sg
+    from harness import c08, c09, c13, c14, c11
+    rng = random.Random(77)
+
+    # ---- clip_segment (+ clip_code): exact stream, eight Fraction coordinates nested in two 2x2 lists ----
+    tw = sc.instrument(pu.clip_segment)
+    assert tw.functions == ['clip_segment', 'clip_code'] and len(tw.sites) == 14
+    seeds = []
+    for _ in range(120):
+        (p, q), b = c08._sitecov_plain_case(rng)
+        seeds.append(([list(p), list(q)], [list(b[0]), list(b[1])]))
+    for s_ in seeds:
+        same(tw, *s_)
+    t0 = time.time()
+    inputs, rep = sc.explore(tw, seeds, sc.Moves(domain=c08._sitecov_domain), 4000, rng)
+    print(f'clip_segment: {sc.compact(rep)}\n   {sc.explore.last}, {len(inputs)} inputs, {time.time() - t0:.1f}s')
+    check_geo('clip_segment', rep, GEO_REASONS['clip_segment'])
+    for text in ('x_in < x_min', 'x_in > x_max', 'y_in < y_min', 'y_in > y_max'):
+        assert rep_of(rep, text)['equal_by_occurrence'][:2] == [True, True], text      # endpoint 1 and endpoint 2
+    on_edge = lambda s_, b: any(p[0] in (b[0][0], b[1][0]) or p[1] in (b[0][1], b[1][1]) for p in s_)     # noqa: E731
+    assert sum(on_edge(s_, b) for s_, b in inputs) >= 8 and not any(on_edge(s_, b) for s_, b in seeds)
+    assert all(c08._sitecov_domain(a) for a in inputs)
+    assert rep_of(rep, 'iterations > 3')['best_abs_diff'] <= 1
+
+    # ---- points_in_tolerance / supersample: one coordinate of one vertex, or the tolerance ----
+    seeds = []
+    while len(seeds) < 120:
+        pts = c09.gen_list(rng)
+        tol = c09.gen_tol(rng, pts)
+        if 3 <= len(pts) <= 8 and tol >= 0:
+            seeds.append(([tuple(p) for p in pts], Fr(tol)))
+    for fn, budget in ((pu.points_in_tolerance, 2500), (pu.supersample, 2000)):
+        tw = sc.instrument(fn)
+        for s_ in seeds[:40]:
+            import copy
+            a, b = copy.deepcopy(s_), copy.deepcopy(s_)
+            assert repr(fn(*a)) == repr(tw(*b)) and a == b        # same result, same in-place reduction
+        inputs, rep = sc.explore(tw, seeds, sc.Moves(domain=c09._sitecov_domain, lo={(1,): 0}), budget, rng)
+        print(f'{fn.__name__}: {sc.compact(rep)}\n   {sc.explore.last}, {len(inputs)} inputs')
+        check_geo(fn.__name__, rep, GEO_REASONS[fn.__name__])
+        assert all(c09._sitecov_domain(a) for a in inputs)
+        # the three tolerance comparisons: squared distance == tolerance squared, exactly
+        eq_tol = [r for r in rep.values() if r['text'].endswith('>= tol_squared')]
+        assert len(eq_tol) == 3 and all(r['hit_equal'] and r['hit_true'] and r['hit_false'] for r in eq_tol), eq_tol
+
+    # ---- rtree.Index: the class, through construction + query ----
+    tw = sc.instrument(rtree.Index)
+    assert tw.functions == ['Index.__init__', 'Index.intersection'] and len(tw.sites) == 19
+    ap = lambda tw_, a: tw_.cls(list(a[0])).intersection(a[1])        # noqa: E731
+    seeds = []
+    for _ in range(100):
+        bs = c14._sitecov_plain_boxes(rng)
+        seeds.append((bs, c14._sitecov_plain_queries(rng, bs, 1)[0]))
+    for s_ in seeds:
+        assert ap(tw, s_) == rtree.Index(list(s_[0])).intersection(s_[1])
+    ids_fixed = lambda path, v: 'fixed' if (len(path) == 3 and path[0] == 0 and path[2] == 0) else None   # noqa: E731
+    t0 = time.time()
+    inputs, rep = sc.explore(tw, seeds, sc.Moves(kinds=ids_fixed, domain=c14._sitecov_domain), 2500, rng, apply=ap)
+    print(f'rtree.Index: {sc.compact(rep)}\n   {sc.explore.last}, {len(inputs)} inputs, {time.time() - t0:.1f}s')
+    check_geo('rtree.Index', rep, {})
+    assert all(c14._sitecov_domain(a) for a in inputs)
+    assert all([i for i, _ in bs] == list(range(len(bs))) for bs, _ in inputs)          # ids untouched
+    touching = lambda b, q: b[0] == q[2] or q[0] == b[2] or b[1] == q[3] or q[1] == b[3]    # noqa: E731
+    assert sum(any(touching(b, q) for _, b in bs) for bs, q in inputs) >= 6
+
+    # ---- spatial_grid.Index: build, removals, one query ----
+    tw = sc.instrument(sg.Index)
+    assert tw.functions == ['Index.__init__', 'Index.find_adjacents', 'Index.nearest', 'Index.remove_path']
+    seeds = []
+    while len(seeds) < 80:
+        n, bins, rev = rng.randint(1, 5), rng.randint(1, 5), rng.random() < 0.5
+        verts = c13._sitecov_plain_verts(rng, n)
+        if c13.zero_extent(verts, rev):
+            continue
+        e = verts[0][0]
+        seeds.append((verts, bins, rev, (), [e[0] + Fr(rng.randint(-4000, 4000), 1009), e[1] + Fr(rng.randint(-4000, 4000), 1009)]))
+    for s_ in seeds:
+        assert c13._sitecov_apply(tw, s_) == sg.Index(s_[0], s_[1], s_[2]).nearest(s_[4])
+    fixed = lambda path, v: 'fixed' if path[0] in (2, 3) else None      # noqa: E731
+    inputs, rep = sc.explore(tw, seeds, sc.Moves(kinds=fixed, lo={(1,): 1}, hi={(1,): 6}, domain=c13._sitecov_domain), 2000, rng,
+                             apply=c13._sitecov_apply)
+    print(f'spatial_grid.Index: {sc.compact(rep)}\n   {sc.explore.last}, {len(inputs)} inputs')
+    check_geo('spatial_grid.Index', rep, {})
+    assert all(c13._sitecov_domain(a) for a in inputs)
+    assert all(r['hit_equal'] for r in rep.values() if r['text'] == 'dist < best_dist')      # exact distance ties
+
+    # ---- vb_scale: four viewBox numbers rendered into the string, page size ----
+    tw = sc.instrument(pu.vb_scale)
+    seeds = []
+    for i in range(100):
+        x, y, w, h, W, H, exact = c11._sitecov_plain_boxes(rng, 1, 1)[i % 2]
+        seeds.append((float(x), float(y), float(w), float(h), rng.choice(c11.ALIGNS), rng.choice(['meet', 'slice', None]), float(W), float(H)))
+    kinds = {0: 'float', 1: 'float', 2: 'float', 3: 'float', 4: 'fixed', 5: 'fixed', 6: 'num', 7: 'num'}
+    inputs, rep = sc.explore(tw, seeds, sc.Moves(kinds=kinds, domain=c11._sitecov_domain), 3000, rng, apply=c11._sitecov_apply)
+    print(f'vb_scale: {sc.compact(rep)}\n   {sc.explore.last}, {len(inputs)} inputs')
+    check_geo('vb_scale', rep, GEO_REASONS['vb_scale'])
+    for text in ('width <= 0', 'height <= 0', 'd_width <= 0', 'd_height <= 0', 'ar_doc >= ar_vb', 'ar_doc < ar_vb'):
+        assert rep_of(rep, text)['hit_equal'], text
+    assert any(a[2] == 0 for a in inputs) and any(a[7] == 0 for a in inputs)
+    assert any(a[2] > 0 and a[3] > 0 and a[6] > 0 and a[7] > 0 and float(a[7]) / float(a[6]) == a[3] / a[2]
+               for a in inputs)                                    # equal aspect ratios as the code computes them (binary64)
+    print('real geometry: ok')
+
+
 if __name__ == '__main__':
     t0 = time.time()
     test_instrument()
     test_explore()
+    test_nested_and_classes()
     test_real()
+    test_real_geometry()
     print(f'all sitecov tests passed in {time.time() - t0:.1f}s')
